@@ -195,7 +195,7 @@ Proof.
 Qed.
 
 (* Stable history: equal reads have equal answers *)
-Definition Stable (h : list (cmd * @out Z Z)) : Prop :=
+Definition Stable {A D : Type} (h : list (cmd * @out A D)) : Prop :=
   forall c o c' o', In (c, o) h -> In (c', o') h -> same_read c c' = true -> o = o'.
 
 Fixpoint stable_b (h : list (cmd * @out Z Z)) : bool :=
